@@ -96,7 +96,6 @@ def load_case(cid, what, text, tmproot):
 
 
 def run(report, tier, seed):
-    sys.path.insert(0, "/repo")
     logging.disable(logging.CRITICAL)
     import mosromgr.mostypes  # noqa: F401
     logging.disable(logging.CRITICAL)
